@@ -566,6 +566,9 @@ func init() {
 		for k, v := range idsb {
 			ids[k] = v
 		}
+		for k, v := range refsOf(idsb) {
+			refsOf(ids)[k] = v
+		}
 		da, db := ga.build(), gb.build()
 		sa.Regions, sa.Styles, sb.Regions, sb.Styles = da.Regions, da.Styles, db.Regions, db.Styles
 		switch kind { // receiver built without the constructor: both maps missing, or one of them
@@ -584,6 +587,9 @@ func init() {
 				}
 				if it.Region != nil && sx.Regions != nil && sx.Regions[it.Region.ID] != nil {
 					it.Region = sx.Regions[it.Region.ID]
+				}
+				if p := payOf(it); p != 0 && p < 999990 {
+					refsOf(ids)[p] = refPair{it.Style, it.Region}
 				}
 			}
 		}
